@@ -9,6 +9,8 @@ import z3
 
 CVC5 = '/usr/bin/cvc5'
 Z3_OLD = '/usr/bin/z3'
+import shutil as _shutil
+Z3_NEW = _shutil.which('z3-new')
 
 
 def to_smt2(pc, goal, observables=None, expect_sat=False):
@@ -405,6 +407,19 @@ def discharge_one(job):
             # refutation only after z3 agrees on the retry or the counter-model replays on the real code
             model, raw = _cvc5_model(txt, timeout_ms)
             res.update(status='sat', solver='cvc5-1.0.3', model=model, raw_model=raw, tentative=True)
+            # before leaving it at that: the two z3 binaries in fresh processes (z3's in-process run depends on the
+            # history of the worker; "Overflow encountered when expanding vector" has been seen there on a query both
+            # binaries decide at once)
+            for label, cmd in (('z3-new-cli', [Z3_NEW, '-T:%d' % max(1, int(timeout_ms / 1000)), '-smt2']),
+                               ('z3-4.8.12', [Z3_OLD, '-T:%d' % max(1, int(timeout_ms / 1000)), '-smt2'])):
+                if cmd[0] is None:
+                    continue
+                r3, dt3 = _run_cli(cmd, smt2, timeout_ms / 1000.0)
+                res['tried'].append((label, r3, round(dt3, 3)))
+                res['time_s'] += dt3
+                if r3 == 'unsat':
+                    res.update(status='unsat', solver=label, model=None, tentative=False)
+                    break
         else:
             r3, dt3 = _run_cli([Z3_OLD, '-T:%d' % max(1, int(timeout_ms / 1000)), '-smt2'], smt2, timeout_ms / 1000.0)
             res['tried'].append(('z3-4.8.12', r3, round(dt3, 3)))
